@@ -1,6 +1,7 @@
 SPECIFICATION ConfSpec
 CONSTANTS
   WorkerCpus = 0
+  WorkerGroup = 0
   Menu = 0
   Classes = 0
   MaxLosses = 0
